@@ -34,6 +34,7 @@ pub enum Term {
     TupleStruct(&'static str, Vec<Term>),
     TupleVariant(&'static str, &'static str, Vec<Term>),
     Map(Vec<(Term, Term)>),
+    MapKV(Vec<(Term, Term)>),
     Struct(&'static str, Vec<(&'static str, Term)>),
     StructVariant(&'static str, &'static str, Vec<(&'static str, Term)>),
     Fail(String),
@@ -99,6 +100,14 @@ impl Serialize for Term {
                 let mut q = s.serialize_map(Some(kv.len()))?;
                 for (k, v) in kv {
                     q.serialize_entry(k, v)?;
+                }
+                q.end()
+            }
+            Term::MapKV(kv) => {
+                let mut q = s.serialize_map(None)?;
+                for (k, v) in kv {
+                    q.serialize_key(k)?;
+                    q.serialize_value(v)?;
                 }
                 q.end()
             }
@@ -180,6 +189,7 @@ pub fn term_from_model(j: &J) -> Result<Term, String> {
         "tuple" => Term::Tuple(xs("xs")?),
         "tuple_struct" => Term::TupleStruct(st(&j["name"])?, xs("xs")?),
         "tuple_variant" => Term::TupleVariant(st(&j["name"])?, st(&j["variant"])?, xs("xs")?),
+        "mapkv" => Term::MapKV(j["kv"].as_array().ok_or("kv")?.iter().map(|kv| Ok((term_from_model(&kv[0])?, term_from_model(&kv[1])?))).collect::<Result<_, String>>()?),
         "map" => Term::Map(j["kv"].as_array().ok_or("kv")?.iter().map(|kv| Ok((term_from_model(&kv[0])?, term_from_model(&kv[1])?))).collect::<Result<_, String>>()?),
         "struct" => Term::Struct(st(&j["name"])?, fields()?),
         "struct_variant" => Term::StructVariant(st(&j["name"])?, st(&j["variant"])?, fields()?),
